@@ -118,6 +118,33 @@ func genNumber(t *rapid.T) *gen.Tree {
 	}
 }
 
+func genObj(t *rapid.T, depth, width int) *gen.Tree {
+	o := gen.Obj()
+	n := rapid.IntRange(0, width).Draw(t, "nkeys")
+	for i := 0; i < n; i++ {
+		var key string
+		if rapid.IntRange(0, 4).Draw(t, "keykind") == 0 {
+			key = genString(t)
+		} else {
+			key = rapid.SampledFrom(keyPool).Draw(t, "key")
+		}
+		if o.Get(key) != nil {
+			continue // no duplicate keys: JSON does not define their meaning
+		}
+		o.Put(key, genValue(t, depth-1, width))
+	}
+	return o
+}
+
+func genList(t *rapid.T, depth, width int) *gen.Tree {
+	l := gen.List()
+	n := rapid.IntRange(0, width).Draw(t, "len")
+	for i := 0; i < n; i++ {
+		l.Vals = append(l.Vals, genValue(t, depth-1, width))
+	}
+	return l
+}
+
 func genValue(t *rapid.T, depth, width int) *gen.Tree {
 	hi := 11
 	if depth <= 0 {
@@ -133,33 +160,24 @@ func genValue(t *rapid.T, depth, width int) *gen.Tree {
 	case k <= 7:
 		return gen.Str(genString(t))
 	case k <= 9:
-		o := gen.Obj()
-		n := rapid.IntRange(0, width).Draw(t, "nkeys")
-		for i := 0; i < n; i++ {
-			var key string
-			if rapid.IntRange(0, 4).Draw(t, "keykind") == 0 {
-				key = genString(t)
-			} else {
-				key = rapid.SampledFrom(keyPool).Draw(t, "key")
-			}
-			if o.Get(key) != nil {
-				continue // no duplicate keys: their meaning is not defined by JSON
-			}
-			o.Put(key, genValue(t, depth-1, width))
-		}
-		return o
+		return genObj(t, depth, width)
 	default:
-		l := gen.List()
-		n := rapid.IntRange(0, width).Draw(t, "len")
-		for i := 0; i < n; i++ {
-			l.Vals = append(l.Vals, genValue(t, depth-1, width))
-		}
-		return l
+		return genList(t, depth, width)
 	}
 }
 
 func genCase(t *rapid.T) Case {
-	c := Case{V: genValue(t, runlog.Pick(4, 6), runlog.Pick(4, 6))}
+	depth, width := runlog.Pick(4, 6), runlog.Pick(4, 6)
+	var c Case
+	// mostly documents (object or array at the top), sometimes a bare scalar
+	switch top := rapid.IntRange(0, 9).Draw(t, "top"); {
+	case top == 0:
+		c.V = genValue(t, 0, width)
+	case top <= 5:
+		c.V = genObj(t, depth, width)
+	default:
+		c.V = genList(t, depth, width)
+	}
 	c.Indent = rapid.SampledFrom([]string{"  ", "\t", " ", "", "    ", "\r"}).Draw(t, "indent")
 	c.Prefix = rapid.SampledFrom([]string{"", "", "", " ", "\t"}).Draw(t, "prefix")
 	c.NoHTML = rapid.Bool().Draw(t, "nohtml")
@@ -342,7 +360,7 @@ var subRound = runlog.Register(&runlog.Sub[Case]{
 	Run:  runCase,
 })
 
-func TestJSONRoundTrip(t *testing.T) { subRound.Check(t, 100000, 10000000) }
+func TestJSONRoundTrip(t *testing.T) { subRound.Check(t, 600000, 10000000) }
 
 func TestReplay(t *testing.T) { runlog.ReplayMain(t) }
 
